@@ -17,7 +17,9 @@ Definition result_eqb {A} (eqb : A -> A -> bool) (model impl : result A) : bool 
 
 Inductive case :=
 | Fwd (buf : bytes) (from_client : bool) (sent : result bytes) (preserved : bool)
-| Ref (buf : bytes) (canon : option bytes).
+| Ref (buf : bytes) (canon : option bytes)
+(* record_data_can_have_compression t, pinned against the list in Model/DnsNames.v *)
+| Comp (t : N) (b : bool).
 
 Definition check_case (c : case) : bool :=
   match c with
@@ -28,4 +30,5 @@ Definition check_case (c : case) : bool :=
          | _, _ => true
          end
   | Ref buf canon => option_eqb bytes_eqb (ref_canon buf) canon
+  | Comp t b => Bool.eqb (record_data_can_have_compression t) b
   end.
